@@ -58,6 +58,14 @@ def targeted_programs(dev):
         ops += [e, {"op": "save", "pre": "longer"}, {"op": "str"}]
     h["ops"] = ops + [{"op": "exit", "pre": "longer"}]
     progs.append(h)
+    # saving somewhere else inside the block must not redirect the save on exit; a second block with as many
+    # records as the first must overwrite the file; a record edited in place must be written
+    h = _hdr("files/reuse", dev)
+    h["ops"] = [{"op": "enter"}, some[1], some[2], {"op": "save", "fname": "snapshot.gwl"}, some[6], {"op": "exit", "pre": "longer"},
+                {"op": "enter"}, some[7], some[0], some[3], {"op": "exit"},
+                {"op": "enter"}, some[4], some[1], some[6], {"op": "exit"}, {"op": "save", "fname": "snapshot.gwl"},
+                {"op": "save", "fname": "snapshot.gwl", "pre": "shorter"}]
+    progs.append(h)
     # a worklist without a path: leaving the block writes nothing
     h = _hdr("files/nopath", dev, file=False)
     h["ops"] = [{"op": "enter"}, some[1], {"op": "exit"}, {"op": "str"}, {"op": "save"}]
